@@ -12,6 +12,48 @@ add("C01", "exploration", "runtime monitor: ground-truth authenticity oracle ove
     "Every entry point that takes an endorsement (library verifier, validator closures, SevValidate, TdxValidate, CLI verify / sev validate / tdx validate driven in-process) is executed on thousands of forgeries of a genuinely signed endorsement x trust-root sets x verification times; an independent oracle (own PSS check, own chain and time check) decides whether acceptance was allowed. Held on the executions observed; sampling of an unbounded forgery space, with every byte position of payload/signature/certificate flipped in the thorough tier.",
     "Trusts Go's crypto/rsa, crypto/x509 parsing and the protobuf runtime; oracle is one-directional and weaker than crypto/x509 on every axis so it cannot over-demand; RSA keys are fresh per run.", "DESIGN.md section 3 C01")
 
+
+TB_GO = "Trusts the Go toolchain/runtime, crypto and protobuf libraries, and the harness's own doubles and reference models (independent code by the same reader of the specifications). Verdict = held on the executions this run produced."
+add("C02", "exploration", "runtime monitor: membership oracle over generated signed measurement tables at every validation entry point",
+    "Thousands of generated measurement tables (any VMSA-count subset, colliding / wrong-length values, optional SVSM, 0..6 TDX rows) are genuinely signed and validated with endorsed values, their one-bit neighbours, foreign, zero and wrong-length measurements under every request (VMSA count, RAM size incl. values beyond 32 bits, expected digest, pre-populated base policies with overwrite); the oracle allows acceptance only for a member of the set listed for the named configuration and requires derived policies to carry exactly that constraint.",
+    TB_GO, "DESIGN.md section 3 C02")
+add("C03", "exploration", "runtime monitor: verifier + independent PSS/chain oracle (+ openssl in thorough) over every file the real pipeline writes across generated key histories",
+    "Generated histories of bootstrap / rotate(flags) / endorse(request) over six key-manager x authority assemblies; every endorsement written is verified at five instants spanning the common validity window, every listed SNP/TDX measurement is validated for its own configuration, the emitted payload/signature/certificate bytes are re-verified independently, and every earlier endorsement is re-verified after every later command.",
+    TB_GO + " Image generator reuses the repository's fakeovmf layout writers (workload only).", "DESIGN.md section 3 C03")
+add("C04", "exploration", "differential runtime monitor against an independent SNP launch-digest model (snpref) over generated and boundary-directed images",
+    "An independent model of SNP_LAUNCH_UPDATE (PAGE_INFO chaining, page order, VMSA contents, GPA width per product) written from the ABI text decides equality for every accepted image, and its malformed-class predicate (64-bit arithmetic) decides which images must be refused; images come from an own byte-level builder incl. a directed enumeration of overlap/misalignment/duplicate/missing/unknown classes at 32-bit boundaries.",
+    TB_GO + " The GCE VMSA reset-state constants are taken from the repository's documentation and pinned by one digest in its tests.", "DESIGN.md section 3 C04")
+add("C05", "exploration", "differential runtime monitor against an independent TDVF/TD-HOB/MRTD model (tdxref) incl. an exhaustively enumerated small grid",
+    "An independent model (TDVF metadata reader, RAM-minus-sections sweep, TD-HOB builder, MEM.PAGE.ADD/MR.EXTEND stream, own table of the six machine shapes) is compared with tdx.MRTD, the extracted regions and TD-HOB bytes (decoded by an own PI-HOB decoder) and every row of tdx.UnsignedTDX, over generated section layouts and RAM bank lists in all three modes, plus every configuration of a 6-point page grid (30k configurations, enumerated completely).",
+    TB_GO, "DESIGN.md section 3 C05")
+add("C09", "exploration", "Go race detector + isolation oracle over recorded call histories of shared validators",
+    "Validators created once (one closure, two closures sharing one *verify.Options, SevValidate with one shared options/base-policy value) are invoked from 2..16 goroutines and successively on endorsed / unendorsed / wrong-length measurements from two firmware builds on the -race build; any race report with a repository frame, any call whose result differs from the same call on private options, and any modification of the caller's options is a violation. Evidence counts histories in which endorsed and unendorsed calls really overlapped.",
+    TB_GO + " Interleavings are those the Go scheduler produced.", "DESIGN.md section 3 C09")
+add("C10", "fault_enumeration", "fault and crash injection at every call of the recorded rotation trace, with post-state invariants and an event-order checker",
+    "For each assembly the fault-free rotation's call trace over key manager, signer, certificate authority and storage is recorded; then every position x {error, crash before, crash after} (and sampled pairs in thorough) is injected from a restored snapshot. After each run the authority is reloaded like a fresh process and must name a live, certified, signing primary; the call log must not show the old key destroyed before the new primary is recorded; a later fault-free --overwrite rotation must succeed.",
+    TB_GO + " Crash granularity = call boundaries of the repository's interfaces.", "DESIGN.md section 3 C10")
+add("C11", "fault_enumeration", "offline checker replaying every prefix (and upload permutation) of the recorded storage write log",
+    "A recording store logs every completed object write of bootstrap and rotations (incl. a rotation retried in-process after an injected upload fault); every prefix of every command's writes, under every order of the certificate uploads that precede the manifest write, is materialised and reloaded by a fresh gcsca authority: manifest parses, every listed key version resolves to a parseable certificate, the recorded primary verifies under the stored root.",
+    TB_GO + " Object-granularity crashes (no torn objects).", "DESIGN.md section 3 C11")
+add("C14", "fault_enumeration", "offline checker over the call log of a scripted version-control double, all scripts up to the retry budget",
+    "Every script of per-attempt outcomes (workspace / read / write / chmod / commit failing retriably or permanently, concurrent writer committing between attempts, genuine commit conflicts) for budgets -2..3 is run through endorse.VirtualFirmware and RetrySubmit (also two and three back ends); the checker judges attempts <= budget+1, retry only after retriable errors, fresh workspace and manifest re-read per attempt, concurrent entries preserved, every failed workspace released once, success iff a commit succeeded, Result recorded once.",
+    TB_GO + " Exhaustive for the stated operation alphabet and budgets.", "DESIGN.md section 3 C14")
+add("C15", "exploration", "call-log emptiness monitor over recording doubles + stdout-vs-signed-table comparison",
+    "All 256 combinations of dry-run, measurement-only, SNP, TDX, snapshot, candidate, overwrite and explicit VMSA count per generated image are executed with version control, signer, key manager, CA and storage behind recording doubles: dry-run must log no workspace/write/commit call and must return; measurement-only additionally no signer/CA/key/storage call; the printed measurements must equal what a real run over the same request signs.",
+    TB_GO, "DESIGN.md section 3 C15")
+add("C16", "exploration", "URL-log checker, byte-equality and confinement monitors (in-process, plus strace path monitor in thorough)",
+    "Object names/URLs are checked against an own model (injective, technology-separated); the SP800-155 events a real snapshot endorse run emits are decoded by an independent TCG codec; the full product of evidence sources (event-log shapes x quote formats x providers x getters x force-fetch) is run with a recording getter and every requested URL must be derived from a full-length measurement of the quote in hand or be the selected URI locator; efivarfs resolution is run against hostile directory trees with outside canaries, and under strace every path-taking syscall must stay inside the root.",
+    TB_GO + " TOCTOU symlink swaps are not generated.", "DESIGN.md section 3 C16")
+add("C17", "exploration", "field-wise reference-model monitor over protoreflect-generated base policies",
+    "Base policies with every field independently set/unset (incl. unknown fields and spare slice capacity) x generated endorsements x options are pushed through SevPolicy and TdxPolicy; the monitor checks the base is byte-identical afterwards, the result shares no memory with it, guarded fields survive or the call fails, written values are the endorsement's, key lists are base ++ bundle, malformed bundles are refused and every unrelated field is carried over.",
+    TB_GO, "DESIGN.md section 3 C17")
+add("C19", "exploration", "differential runtime monitor against an independent protoreflect walker (pathref) + resource monitor + rendering decoders",
+    "Grammar-directed path texts (all key kinds, number bases, quote styles and escapes), neighbour edits and token soups are parsed and evaluated on the source message, a random message, the empty message and a copy with the addressed element removed; results must equal the independently walked value or be an error when absent, never a panic or an out-of-proportion allocation; raw/hex/base64 renderings of payload, signature and bytes fields through the API and the in-process CLI must decode to the exact field bytes.",
+    TB_GO, "DESIGN.md section 3 C19")
+add("C20", "fault_enumeration", "in-process Cloud KMS model with RPC call budget, state invariants and response corruption at the transport",
+    "gcpkms.Manager and gcpkms.Signer run against a model KeyManagementService (versions in all states, seven legal AIP-158 paging behaviours, an error at the N-th RPC for every N): wipeout/bootstrap/rotation must finish within a logical RPC budget and leave no enabled/disabled version, select an enabled (or polled pending) version, return only enabled versions; Sign must refuse every single-bit corruption of signature/checksum/flags and every non-PSS-SHA256 option.",
+    TB_GO + " The service is a model producing only behaviours the public API contract allows.", "DESIGN.md section 3 C20")
+
 props = [json.loads(l) for l in open(os.path.join(V, 'properties.jsonl'))]
 checks, na = [], []
 for p in props:
